@@ -23,7 +23,7 @@ Allowed(st, x) ==
     LET conn == {c \in Client : st.srv.cl[c].conn}
     IN CASE x.mode = "all"    -> conn
          [] x.mode = "except" -> conn \ {x.to}
-         [] OTHER             -> IF x.to \in conn /\ st.ev.sess[x.to] = x.sess THEN {x.to} ELSE {}
+         [] OTHER             -> IF x.to \in conn THEN {x.to} ELSE {}
 
 ----------------------------------------------------------------------------
 (* observations of a server frame: `sentEv` = event messages of obs.sent as [c, t, id, stamp, e] *)
